@@ -20,7 +20,7 @@ from __future__ import annotations
 
 import ast
 
-from ..core import Cls, Ctx, Module, call_name, const_str, dotted, norm, walk_no_nested
+from ..core import AnalysisError, Cls, Ctx, Module, call_name, const_str, dotted, norm, walk_no_nested
 from ..facts import facts
 
 OP_TABLES = ["ASSIGNMENT", "DISJUNCTION", "CONJUNCTION", "EQUALITY", "COMPARISON", "BITWISE", "TERM", "FACTOR", "EXPONENT"]
@@ -251,7 +251,139 @@ def rule_d(ctx: Ctx) -> None:
     dead_settings(ctx, "C01.d", [("sqlglot.parser", "Parser"), ("sqlglot.generator", "Generator"), ("sqlglot.tokens", "Tokenizer")])
 
 
-RULES = [rule_a, rule_b, rule_c, rule_d]
+def rule_e(ctx: Ctx) -> None:
+    ctx.rule("C01.e", "function-name closure: a function class that a dialect's FUNCTIONS table constructs and that the same dialect prints under a name N "
+                      "(rename_func(N) or its default name) is read back from N as the same class, or as a class that is printed under N again — otherwise the "
+                      "printed name changes on the second round trip")
+    fx = facts(ctx.repo)
+    n = und = 0
+    for name, d in sorted(fx["dialects"].items()):
+        dn = name or "base"
+        if name == "python":
+            continue  # the executor's internal dialect: generates Python, not SQL
+        functions: dict = d.get("functions") or {}
+        render: dict = d.get("func_render") or {}
+        if not functions:
+            raise AnalysisError(f"C01.e: no FUNCTIONS table recorded for dialect {dn}")
+        bad = 0
+        for cls, (kind, N) in sorted(render.items()):
+            if not isinstance(N, str):
+                continue
+            n += 1
+            if N.upper() not in functions:
+                continue  # read back as an anonymous function, printed verbatim
+            Y = functions[N.upper()]
+            if Y is None:
+                und += 1
+                continue  # bespoke builder: not decided
+            if Y == cls:
+                continue
+            k2, N2 = render.get(Y, ["?", None])
+            if not isinstance(N2, str):
+                und += 1
+                continue
+            if N2.upper() != N.upper():
+                bad += 1
+                ctx.fail(None, None, d["parser_class"], f"{dn}: {cls} printed as {N} re-parses as {Y} printed as {N2}",
+                         f"dialect {dn}: exp.{cls} is generated as {N}(...); the same dialect's parser reads {N} as exp.{Y}, which is generated as {N2}(...): "
+                         f"the text keeps changing (no fixpoint)")
+        if not bad:
+            ctx.ok(f"dialect {dn}|function names closed ({len(render)} classes)", None)
+    ctx.count("function_name_obligations", n)
+    ctx.count("bespoke_builders_or_printers_not_decided", und)
+    ctx.min_instances("function_name_obligations", n, 9000)
+
+
+def _type_name_anchors(ctx: Ctx) -> int:
+    """The two code sites the table model of C01.f mirrors: the generator prints a type through TYPE_MAPPING.get(t, t.value),
+    the parser reads a type keyword back as exp.DType[<token>.name]."""
+    hits = 0
+    g = ctx.repo.cls("sqlglot.generator", "Generator")
+    md = g.methods().get("datatype_sql")
+    if md is not None and any(isinstance(c, ast.Call) and (call_name(c) or "") == "self.TYPE_MAPPING.get" for c in ast.walk(md)):
+        hits += 1
+    pm = ctx.repo.module("sqlglot.parser")
+    for x in ast.walk(pm.tree):
+        if isinstance(x, ast.Subscript) and norm(x.value) in ("exp.DType", "exp.DataType.Type") and isinstance(x.slice, ast.Attribute) and x.slice.attr == "name":
+            hits += 1
+            break
+    return hits
+
+
+def _own_statement_grammar(ctx: Ctx, d: dict) -> bool:
+    """The first class on the parser MRO (before the base Parser) that defines _parse_statement never delegates to super()._parse_statement()."""
+    for key in d["parser_mro"]:
+        mod, _, qual = key.partition(":")
+        if mod == "sqlglot.parser":
+            return False
+        try:
+            c = ctx.repo.cls(mod, qual)
+        except Exception:  # noqa: BLE001
+            continue
+        md = c.methods().get("_parse_statement")
+        if md is None:
+            continue
+        return not any(isinstance(x, ast.Call) and norm(x.func) == "super()._parse_statement" for x in ast.walk(md))
+    return False
+
+
+def rule_f(ctx: Ctx) -> None:
+    ctx.rule("C01.f", "type-name closure: a type T that a dialect can read (a keyword of its tokenizer whose token is one of the parser's TYPE_TOKENS) and prints as the "
+                      "single word N = TYPE_MAPPING.get(T, T.value) must be read back from N as T, or as a type that is printed as N again — otherwise CAST(x AS T) "
+                      "changes again on the second round trip")
+    fx = facts(ctx.repo)
+    anchors = _type_name_anchors(ctx)
+    ctx.count("model_anchor_sites", anchors)
+    ctx.min_instances("model_anchor_sites", anchors, 2)
+    values: dict = fx.get("dtype_values") or {}
+    n = und = 0
+    skipped_languages: list[str] = []
+    for name, d in sorted(fx["dialects"].items()):
+        dn = name or "base"
+        if name == "python":
+            continue  # the executor's internal dialect: generates Python, not SQL
+        if _own_statement_grammar(ctx, d):
+            skipped_languages.append(name)
+            continue  # the parser replaces the statement grammar (DAX, PRQL): SQL type syntax is not readable in this dialect, and what it generates is SQL
+        kw: dict = d["tok"]["KEYWORDS"]
+        type_tokens = set(d["parser_tables"].get("TYPE_TOKENS") or [])
+        tm: dict = d.get("type_mapping") or {}
+        if not type_tokens:
+            raise AnalysisError(f"C01.f: no TYPE_TOKENS recorded for dialect {dn}")
+
+        def read(word: str) -> str | None:
+            tt = kw.get(word.upper())
+            return tt if tt in type_tokens and tt in values else None
+
+        constructible = sorted({tt for tt in kw.values() if tt in type_tokens and tt in values})
+        bad = 0
+        for T in constructible:
+            N = tm.get(T, values[T])
+            n += 1
+            if not isinstance(N, str) or not N.replace("_", "").isalnum():
+                und += 1
+                continue  # multi-word / parameterised names are read by bespoke parser code: not decided
+            T2 = read(N)
+            if T2 is None:
+                und += 1
+                continue
+            if T2 == T:
+                continue
+            N2 = tm.get(T2, values[T2])
+            if N2 != N:
+                bad += 1
+                ctx.fail(None, None, d["generator_class"], f"{dn}: type {T} printed as {N} re-parses as {T2} printed as {N2}",
+                         f"dialect {dn}: CAST(x AS <{T}>) is generated as CAST(x AS {N}); the same dialect reads {N} as {T2}, which is generated as {N2}: "
+                         f"the text changes again on the second round trip (no fixpoint)")
+        if not bad:
+            ctx.ok(f"dialect {dn}|type names closed ({len(constructible)} readable types)", None)
+    ctx.count("type_name_obligations", n)
+    ctx.count("dialects_with_their_own_statement_grammar_skipped", len(skipped_languages))
+    ctx.count("multiword_or_unreadable_names_not_decided", und)
+    ctx.min_instances("type_name_obligations", n, 2000)
+
+
+RULES = [rule_a, rule_b, rule_c, rule_d, rule_e, rule_f]
 EXPLANATION = (
     "Exhaustive table/shape checks over all dialect classes: (a) the set of expression classes each dialect's parser chain "
     "can construct (collected from the AST of the parser modules on its MRO) must be covered by that dialect's generator "
